@@ -97,6 +97,24 @@ def container(F, R):
         under_contains_data(R, p, cp, 'copy-only-if-odd', 'an even counter holds no data')
         pred = [s for s in p.sites if s.is_call and s.callee is None or (s.is_call and re.search(r'FnMut<.*>>::call_mut$|FnMut::call_mut$', s.callee or ''))]
         dom(R, p, sites_of(cs), pred, 'validating-CAS<user-predicate', 'the predicate only sees validated values')
+    # every CAS that advances an element counter by one outside add() turns "odd" into "even" (marks empty): it must only run
+    # when the recorded counter says the slot contains data - otherwise an even (empty, e.g. owner died inside add) slot would be
+    # flipped to odd = a ghost entry with uninitialised content
+    nmark = 0
+    for body, label in [(rem, 'remove')] + [(c, 'recover-on_success') for c in F.closures_of(rec) if not atomics(c, None, 'load')]:
+        for a in atomics(body, r'element_generation_counter_ptr', 'compare_exchange(_weak)?'):
+            e, n_ = sym_nstr(sym(body, a.site.args[1])), sym_nstr(sym(body, a.site.args[2]))
+            if not (n_.startswith('(' + e + ' + 1)') or n_ == '(%s + 1)' % e or n_ == '(1 + %s)' % e):
+                continue
+            nmark += 1
+            if label == 'remove':
+                # the handle proves a completed add: expected value was sampled while the index was still owned (DOM rule above)
+                R.ob('ONLY-UNDER', 'ONLY-UNDER::%s::mark-empty-expects-owned-slot' % fnkey(body), True, 'remove(): the expected value of the mark-empty CAS was loaded while the handle still owned the slot (slot of a completed add is odd)', a.site.where, body)
+                continue
+            conds = [sym_nstr(sym(body, body.blocks[b]['t'][1])) for (b, tgt) in lib.guard_switches(body, a.site)]
+            ok_ = any('contains_data' in c for c in conds)
+            R.ob('ONLY-UNDER', 'ONLY-UNDER::%s::mark-empty-only-if-odd' % fnkey(body), ok_, 'the CAS(v, v + 1) of %s is guarded by %s ; required contains_data(v): for an even v (owner died inside add before publishing) the increment would create a ghost entry' % (label, conds), a.site.where, body)
+    R.floor('mark-empty CAS sites outside add', nmark, 2)
     # ------------------------------------------------------------- update_state
     first = ord_floor(R, upd, CHG, 'load', 0, 'A', 'MUST HAPPEN BEFORE all other operations')
     ld = ord_floor(R, upd, ELEM, 'load', 0, 'A', 'SYNC POINT with reading data values')
